@@ -113,10 +113,10 @@ impl MetaRec {
 ///   leaf:   elems [[key id, kind 0 pair / 1 bucket / other, value id | bucket root, bucket ctr, end offset]]
 ///   freelist: ids
 pub fn decode_page(b: &[u8], prof: &Profile) -> Value {
-    let id = match u64_at(b, 0) {
-        Some(x) => x,
-        None => return json!({"bad": "short"}),
-    };
+    if b.len() < 32 {
+        return json!({"bad": "short", "id": 0, "ptype": 0, "count": 0, "ov": 0, "elems": [], "used": 0, "len": b.len()});
+    }
+    let id = u64_at(b, 0).unwrap_or(0);
     let ptype = b[8];
     let count = u64_at(b, 16).unwrap_or(0);
     let overflow = u64_at(b, 24).unwrap_or(0);
